@@ -105,7 +105,9 @@ def run(c, pid, groups, parts, spec, spec_files, prop_files_quick, prop_files_th
         txt = open(f).read()
         changed = False
         for nm in refuted:
-            if ("Definition %s_c0" % nm) in txt:
+            # only for operations under a listed known finding; any other refuted operation keeps its obligations,
+            # which then fail in Coq as well (the concrete failing input is the one reported above)
+            if nm.rsplit("_", 1)[0] in (conditional or {}) and ("Definition %s_c0" % nm) in txt:
                 txt = re.sub(r"Lemma %s_c\d+_ok :.*?Qed\.\n" % re.escape(nm), "", txt, flags=re.S)
                 txt = re.sub(r"Lemma %s_ok :.*?Qed\.\n" % re.escape(nm), "(* obligation of %s dropped: refuted on a concrete input by this run *)\n" % nm, txt, flags=re.S)
                 changed = True
@@ -136,6 +138,7 @@ def run(c, pid, groups, parts, spec, spec_files, prop_files_quick, prop_files_th
             opn = re.sub(r"(_c\d+)?_ok$", "", lem)
             failed_ops.append(opn)
             if opn in refuted:
+                c.notes.append("obligation %s fails in Coq; concrete failing input of %s reported" % (lem, opn))
                 continue
             c.report("coq:" + (lem or fn), "generated obligation %s (file %s) no longer checks and no failing input was found among the seeded inputs: %s" % (
                 lem, os.path.basename(fn), msg[-500:]), {"lemma": lem, "file": fn, "line": line, "message": msg[-2500:]}, False)
